@@ -431,10 +431,12 @@ impl TryFrom<&str> for ByteRange {
             .map(|v| v.parse::<usize>().map_err(|e| Error::parse_int(v, e)))
             .transpose()?;
 
-        Ok(Self {
-            start,
-            end: start.unwrap_or(0) + length,
-        })
+        let end = start
+            .unwrap_or(0)
+            .checked_add(length)
+            .ok_or_else(|| Error::custom("the end of the byte range overflows"))?;
+
+        Ok(Self { start, end })
     }
 }
 
